@@ -194,8 +194,10 @@ func runChecks(repo, prop, tier, evdir, kfPath, explain string) int {
 		ids = strings.Split(prop, ",")
 	}
 	p, err := loadProg(repo)
+	loadDur := time.Since(start)
 	rc := 0
 	for _, id := range ids {
+		start := time.Now().Add(-loadDur) // wall time of this property = load + its own rules
 		ps := findProp(id)
 		if ps == nil {
 			fmt.Fprintf(os.Stderr, "unknown property %s\n", id)
